@@ -1,4 +1,317 @@
-import FloxProofs.Members
+/-
+  C05 — one output slot per requested label; `fill_value` and `min_count` honoured exactly.
+
+  The specification `Spec.reduce` (`FloxModel/Spec.lean`, written from NumPy's semantics only) IS this property:
+
+      Spec.slot k minCount userFill ms =
+        if ms.isEmpty then userFill                               -- the label never occurs: the user's fill, verbatim
+        else if validCount ms < minCount then userFill            -- fewer than `min_count` non-NaN members: the fill
+        else some (kEval k ms)                                    -- the NumPy reduction of the members, original order
+      Spec.reduce k minCount userFill codes vals n =
+        (List.range n).mapM fun g => Spec.slot k minCount userFill (members g codes vals)
+                                                                  -- `none` = a fill is required but none was given
+
+    §1  what `Spec.reduce` says, as lemmas: exactly `n` slots; absent label ↦ fill verbatim; below `min_count` ↦ fill;
+        otherwise the NumPy value; `none` exactly when a fill is needed and missing; elements whose code is outside
+        `0..n-1` (missing labels, labels not requested: code `-1`) influence no slot
+    §2  every plan returns `Spec.reduce` (`ValueError` where it is `none`): eager, map-reduce with either reindex mode,
+        cohorts, blockwise – restated from C01 / C02 with `Spec.reduce` spelled out
+    §3  the returned labels are the requested ones, in the requested order
+    §4  the implicit `min_count` rule of `groupby_reduce` (`effective`)
+    §5  the open finding F9: without the count mask an ABSENT requested label does not get the user's fill on the eager
+        and `reindex=True` paths – the reason for the hypothesis `H_absent` in §2
+
+  Property theorems only (helper lemmas live in FloxProofs; `FloxProofs/SpecLemmas.lean` for §1 and §3).
+  Vocabulary as in C02 (`codeKeys`, `CodesOK`, `HAbsent`, `HAllNaN`, `HMinMax`, `HDropped`, `CohortsSound`,
+  `HCohortFill`, `BW.EachLabelInOneBlock`, `BW.HDropped`, `BW.HSomeLabel`).
+-/
+import FloxProofs.SpecLemmas
+import FloxProofs.EndToEnd
+import FloxProofs.EndToEndSparse
+import FloxProofs.Cohorts
+import FloxProofs.Blockwise
+import FloxProofs.LabelOrder
+import FloxProofs.EndToEndExamples
+import FloxProofs.EndToEndSparseExamples
+
 namespace Flox.C05
-theorem placeholder_members_nil (g : Int) (vs : List Val) : members g [] vs = [] := members_nil_left g vs
+
+/-! ## §1 the specification says what the property says -/
+
+/-- exactly one slot per requested label -/
+theorem spec_length (k : Kernel) (minCount : Nat) (userFill : Option Val) (codes : List Int) (vals : List Val)
+    (n : Nat) (vs : List Val) (h : Spec.reduce k minCount userFill codes vals n = some vs) : vs.length = n :=
+  SpecL.reduce_length k minCount userFill codes vals n vs h
+
+/-- a requested label that never occurs gets the user's fill VERBATIM (whatever it is: NaN, 0, a negative number –
+    `userFill` is an arbitrary `Option Val`; for every kernel, arg-reductions included) -/
+theorem spec_absent_label_gets_fill (k : Kernel) (minCount : Nat) (userFill : Option Val) (codes : List Int)
+    (vals : List Val) (n : Nat) (vs : List Val) (h : Spec.reduce k minCount userFill codes vals n = some vs)
+    (g : Nat) (hg : g < n) (habsent : members (Int.ofNat g) codes vals = []) : vs[g]? = userFill := by
+  rw [SpecL.reduce_getElem? k minCount userFill codes vals n vs h g hg]
+  exact SpecL.slotAt_needsFill k minCount userFill codes vals g (Or.inl habsent)
+
+/-- a label with fewer than `min_count` non-NaN members gets the user's fill -/
+theorem spec_below_min_count_gets_fill (k : Kernel) (minCount : Nat) (userFill : Option Val) (codes : List Int)
+    (vals : List Val) (n : Nat) (vs : List Val) (h : Spec.reduce k minCount userFill codes vals n = some vs)
+    (g : Nat) (hg : g < n) (hlow : Spec.validCount (members (Int.ofNat g) codes vals) < minCount) :
+    vs[g]? = userFill := by
+  rw [SpecL.reduce_getElem? k minCount userFill codes vals n vs h g hg]
+  exact SpecL.slotAt_needsFill k minCount userFill codes vals g (Or.inr hlow)
+
+/-- a label that occurs and has at least `min_count` non-NaN members gets the NumPy reduction of its members (in
+    original order) – the fill plays no role (non-arg kernels; for arg-reductions the value is mapped to the position
+    along the whole axis, see C06) -/
+theorem spec_present_label_gets_value (k : Kernel) (hk : Spec.isArg k = false) (minCount : Nat)
+    (userFill : Option Val) (codes : List Int) (vals : List Val) (n : Nat) (vs : List Val)
+    (h : Spec.reduce k minCount userFill codes vals n = some vs)
+    (g : Nat) (hg : g < n) (hpresent : members (Int.ofNat g) codes vals ≠ [])
+    (hcount : minCount ≤ Spec.validCount (members (Int.ofNat g) codes vals)) :
+    vs[g]? = some (kEval k (members (Int.ofNat g) codes vals)) := by
+  rw [SpecL.reduce_getElem? k minCount userFill codes vals n vs h g hg]
+  exact SpecL.slotAt_value k minCount userFill codes vals g hk (by
+    rintro (h' | h')
+    · exact hpresent h'
+    · omega)
+
+/-- the specification refuses (`none`, flox's `ValueError: Filling is required`) exactly when no fill was given and
+    some requested label is absent or below `min_count` -/
+theorem spec_refuses_iff (k : Kernel) (minCount : Nat) (userFill : Option Val) (codes : List Int) (vals : List Val)
+    (n : Nat) :
+    Spec.reduce k minCount userFill codes vals n = none
+      ↔ userFill = none ∧ ∃ g, g < n ∧ (members (Int.ofNat g) codes vals = []
+          ∨ Spec.validCount (members (Int.ofNat g) codes vals) < minCount) :=
+  SpecL.reduce_eq_none_iff k minCount userFill codes vals n
+
+/-- **dropped elements influence no slot**: removing every element whose code lies outside `0..n-1` (missing labels
+    and labels that were not requested are coded `-1`) leaves the whole result unchanged (non-arg kernels: for
+    arg-reductions removing elements shifts the positions that are returned) -/
+theorem spec_dropped_elements_ignored (k : Kernel) (hk : Spec.isArg k = false) (minCount : Nat)
+    (userFill : Option Val) (codes : List Int) (vals : List Val) (n : Nat) :
+    Spec.reduce k minCount userFill
+        (((codes.zip vals).filter fun p => decide (0 ≤ p.1 ∧ p.1 < (n : Int))).map (·.1))
+        (((codes.zip vals).filter fun p => decide (0 ≤ p.1 ∧ p.1 < (n : Int))).map (·.2)) n
+      = Spec.reduce k minCount userFill codes vals n :=
+  SpecL.reduce_keepRequested k hk minCount userFill codes vals n
+
+/-! ## §2 every plan returns `Spec.reduce` -/
+
+/-- **eager** (numpy_groupies engine; `C01.eager_eq_spec`, and `C01.eager_eq_spec_flox` for flox's engine).
+    `H_absent`: see §5.  `H_allnan`: nanmax / nanmin / nanfirst / nanlast / nanmean / nanvar get the NumPy fill for an
+    all-NaN group, which must be NaN unless the count mask is on (`E2E.H_allnan_counterexample`). -/
+theorem eager_returns_spec (R : Resolved) (s : Shape) (c : Call) (n : Nat) (floatData : Bool)
+    (chunks : List Nat) (codes : List Int) (vals : List Val)
+    (hR : c.R = R) (heng : c.eng = .npg) (hn : c.ngroups = n) (hknown : c.knownLabels = true)
+    (hshape : R.shape? = some s) (hcodes : CodesOK codes n) (hlen : codes.length = vals.length)
+    (H_absent : ∀ g : Nat, g < n → HAbsent R (members (Int.ofNat g) codes vals))
+    (H_allnan : HAllNaN R s) :
+    runKnown c .eager floatData chunks (codeKeys codes) vals
+      = (match Spec.reduce s.kernel R.minCount R.userFill codes vals n with
+          | some vs => .ok vs
+          | none => .error "ValueError") :=
+  Flox.eager_eq_spec R s c n floatData chunks codes vals hR heng hn hknown hshape hcodes hlen H_absent H_allnan
+
+/-- **map-reduce, `reindex=True`**, any chunking, any `split_every` (`C02.mapreduce_dense_eq_spec`) -/
+theorem mapreduce_dense_returns_spec (R : Resolved) (s : Shape) (c : Call) (n : Nat) (floatData : Bool)
+    (chunks : List Nat) (codes : List Int) (vals : List Val)
+    (hR : c.R = R) (heng : c.eng = .npg) (hn : c.ngroups = n) (hknown : c.knownLabels = true)
+    (hshape : R.shape? = some s) (hcodes : CodesOK codes n) (hlen : codes.length = vals.length)
+    (H_absent : ∀ g : Nat, g < n → HAbsent R (members (Int.ofNat g) codes vals))
+    (H_minmax : HMinMax R s)
+    (hchunks : chunks ≠ []) (hsum : chunks.sum = codes.length)
+    (hcombine : useGroupedCombine c floatData = false) :
+    runKnown c (.mapreduce true) floatData chunks (codeKeys codes) vals
+      = (match Spec.reduce s.kernel R.minCount R.userFill codes vals n with
+          | some vs => .ok vs
+          | none => .error "ValueError") :=
+  Flox.mapreduce_dense_eq_spec R s c n floatData chunks codes vals hR heng hn hknown hshape hcodes hlen H_absent
+    H_minmax hchunks hsum hcombine
+
+/-- **map-reduce, `reindex=False`** (`C02.mapreduce_sparse_eq_spec`): NO `H_absent` – the final reindex fills absent
+    labels with the user's fill, exactly as the specification says -/
+theorem mapreduce_sparse_returns_spec (R : Resolved) (s : Shape) (c : Call) (n : Nat) (floatData : Bool)
+    (chunks : List Nat) (codes : List Int) (vals : List Val)
+    (hR : c.R = R) (heng : c.eng = .npg) (hn : c.ngroups = n) (hknown : c.knownLabels = true)
+    (hshape : R.shape? = some s) (hcodes : CodesOK codes n) (hlen : codes.length = vals.length)
+    (H_dropped : HDropped R n codes vals) (H_minmax : HMinMax R s)
+    (hsum : chunks.sum = codes.length)
+    (hcombine : useGroupedCombine c floatData = false) :
+    runKnown c (.mapreduce false) floatData chunks (codeKeys codes) vals
+      = (match Spec.reduce s.kernel R.minCount R.userFill codes vals n with
+          | some vs => .ok vs
+          | none => .error "ValueError") :=
+  Flox.mapreduce_sparse_eq_spec R s c n floatData chunks codes vals hR heng hn hknown hshape hcodes hlen H_dropped
+    H_minmax hsum hcombine
+
+/-- **cohorts**, any sound cohort structure (`C02.cohorts_eq_spec`): `H_absent` only for labels that are in a cohort;
+    labels in no cohort are filled by the final reindex with the `fill_value` argument (`HCohortFill`) -/
+theorem cohorts_returns_spec (R : Resolved) (s : Shape) (c : Call) (n : Nat) (floatData : Bool)
+    (chunks : List Nat) (codes : List Int) (vals : List Val) (cs : List (List Nat × List Rat))
+    (hR : c.R = R) (heng : c.eng = .npg) (hn : c.ngroups = n) (hknown : c.knownLabels = true)
+    (hshape : R.shape? = some s) (hlen : codes.length = vals.length)
+    (hsound : CohortsSound chunks codes n cs)
+    (H_absent : ∀ co ∈ cs, ∀ g : Nat, ((g : Nat) : Rat) ∈ co.2 → HAbsent R (members (Int.ofNat g) codes vals))
+    (H_minmax : HMinMax R s)
+    (H_fill : HCohortFill c R n cs)
+    (hsum : chunks.sum = codes.length)
+    (hcombine : useGroupedCombine c floatData = false) :
+    runKnown c (.cohorts cs) floatData chunks (codeKeys codes) vals
+      = (match Spec.reduce s.kernel R.minCount R.userFill codes vals n with
+          | some vs => .ok vs
+          | none => .error "ValueError") :=
+  Flox.cohorts_eq_spec R s c n floatData chunks codes vals cs hR heng hn hknown hshape hlen hsound H_absent H_minmax
+    H_fill hsum hcombine
+
+/-- **blockwise**, when every label lies within one block (`C02.blockwise_eq_spec`): NO `H_absent` -/
+theorem blockwise_returns_spec (R : Resolved) (s : Shape) (c : Call) (n : Nat) (floatData : Bool)
+    (chunks : List Nat) (codes : List Int) (vals : List Val)
+    (hR : c.R = R) (heng : c.eng = .npg) (hn : c.ngroups = n) (hknown : c.knownLabels = true)
+    (hshape : R.shape? = some s) (hcodes : CodesOK codes n) (hlen : codes.length = vals.length)
+    (hsum : chunks.sum = codes.length) (hpos : ∀ k ∈ chunks, 0 < k)
+    (hone : BW.EachLabelInOneBlock chunks codes)
+    (hfill : c.fillArg = R.userFill) (H_allnan : HAllNaN R s)
+    (H_dropped : BW.HDropped R (segsOf chunks codes vals)) (H_somelabel : BW.HSomeLabel R codes n) :
+    runKnown c (.blockwise false) floatData chunks (codeKeys codes) vals
+      = (match Spec.reduce s.kernel R.minCount R.userFill codes vals n with
+          | some vs => .ok vs
+          | none => .error "ValueError") :=
+  BW.blockwise_eq_spec R s c n floatData chunks codes vals hR heng hn hknown hshape hcodes hlen hsum hpos hone hfill
+    H_allnan H_dropped H_somelabel
+
+/-- consequence for every plan above: an `ok` result has exactly one slot per requested label.  (Stated for an
+    arbitrary computation `r` that equals the specification's answer.) -/
+theorem ok_result_has_n_slots (k : Kernel) (minCount : Nat) (userFill : Option Val) (codes : List Int)
+    (vals : List Val) (n : Nat) (r : Except String (List Val)) (vs : List Val)
+    (hr : r = (match Spec.reduce k minCount userFill codes vals n with
+          | some vs => .ok vs
+          | none => .error "ValueError"))
+    (hok : r = .ok vs) : vs.length = n := by
+  subst hr
+  cases h : Spec.reduce k minCount userFill codes vals n with
+  | none => rw [h] at hok; cases hok
+  | some vs' =>
+    rw [h] at hok
+    cases hok
+    exact SpecL.reduce_length k minCount userFill codes vals n vs h
+
+/-! ## §3 the returned labels -/
+
+/-- **The labels `groupby_reduce` returns are the requested ones, in the requested order** – for every plan, every
+    blueprint, every input: when `expected_groups = ex` is given (and labels are known when the graph is built) the
+    entry point `run` returns `ex` as given for `sort=False`, and `ex` sorted ascending for `sort=True`. -/
+theorem returned_labels_are_requested (rows : List InitRow) (rq : Request) (plan : Plan) (chunks : List Nat)
+    (labels : List Key) (vals : List Val) (gs : List Key) (vs : List Val) (ex : List Rat)
+    (hknown : rq.known = true) (hex : rq.expected = some ex)
+    (h : run rows rq plan chunks labels vals = .ok gs vs) :
+    gs = (if rq.sort then ex.mergeSort (fun a b => decide (a ≤ b)) else ex).map some := by
+  rw [SpecL.run_groups rows rq plan chunks labels vals gs vs hknown h, hex]
+  simp [factorizeLabels]
+
+/-- for a duplicate-free `ex` and `sort=True` these are strictly ascending and a rearrangement of `ex` (C16) -/
+theorem sorted_requested_labels (ex : List Rat) (hnd : ex.Nodup) :
+    (ex.mergeSort fun a b => decide (a ≤ b)).Pairwise (· < ·) ∧ (ex.mergeSort fun a b => decide (a ≤ b)).Perm ex :=
+  ⟨C16.sorted_expected_strictAsc ex hnd, List.mergeSort_perm ex _⟩
+
+/-- every element is coded with the position of its own label among the returned labels, and `-1` exactly when its
+    label is missing (NaN) or not among them – so "unrequested and missing labels are dropped" (§1) -/
+theorem codes_point_at_own_label (labels : List Key) (expected : Option (List Rat)) (sort : Bool) (i : Nat)
+    (hi : i < labels.length) :
+    ∃ hc : i < (factorizeLabels labels expected sort).2.length,
+      (∀ j : Nat, (factorizeLabels labels expected sort).2[i] = (j : Int) →
+        (factorizeLabels labels expected sort).1[j]? = labels[i] ∧ labels[i] ≠ none)
+      ∧ ((factorizeLabels labels expected sort).2[i] = -1 ↔
+          (labels[i] = none ∨ ∃ r, labels[i] = some r ∧ r ∉ (factorizeLabels labels expected sort).1)) :=
+  C16.factorizeLabels_decode labels expected sort i hi
+
+/-! ## §4 the implicit `min_count` rule (`effective`, `FloxModel/Entry.lean`)
+
+  `groupby_reduce`: with `min_count=None`, a `fill_value` AND `expected_groups` imply `min_count = 1` (so that absent
+  labels are masked); an explicit `min_count` is taken as is; `nansum` / `nanprod` with a positive `min_count` and no
+  fill get NaN as fill. -/
+
+/-- a request template: `sum` on float64, numpy_groupies, sorted, labels known -/
+private def rq0 : Request :=
+  { func := "sum", dkind := "f8", fill := none, minCount := none, ddof := 0, eng := .npg, sort := true,
+    expected := none, known := true, splitEvery := 2, floatData := true }
+
+/-- fill + expected groups, no `min_count` ⇒ `min_count = 1`, fill kept verbatim (here 0) -/
+example : effective { rq0 with fill := some Val.zero, expected := some [0, 1, 2] } = (1, some Val.zero) := by
+  decide +kernel
+/-- fill without expected groups ⇒ `min_count = 0` -/
+example : effective { rq0 with fill := some Val.zero } = (0, some Val.zero) := by decide +kernel
+/-- expected groups without fill ⇒ `min_count = 0`, no fill -/
+example : effective { rq0 with expected := some [0, 1, 2] } = (0, none) := by decide +kernel
+/-- an explicit `min_count` (also 0) is taken as is -/
+example : effective { rq0 with fill := some (Val.fin (-5)), expected := some [0, 1], minCount := some 0 }
+    = (0, some (Val.fin (-5))) := by decide +kernel
+example : effective { rq0 with fill := some (Val.fin (-5)), expected := some [0, 1], minCount := some 3 }
+    = (3, some (Val.fin (-5))) := by decide +kernel
+/-- `nansum` with `min_count > 0` and no fill: the fill becomes NaN; with a fill it is kept -/
+example : effective { rq0 with func := "nansum", minCount := some 2 } = (2, some Val.nan) := by decide +kernel
+example : effective { rq0 with func := "nansum", minCount := some 2, fill := some Val.zero } = (2, some Val.zero) := by
+  decide +kernel
+example : effective { rq0 with func := "nanmax", minCount := some 2 } = (2, none) := by decide +kernel
+
+/-! ## §5 the open finding F9 (why `H_absent` is a hypothesis)
+
+  `HAbsent R ms` is `R.minCount ≥ 1 ∨ ms ≠ []`.  With `min_count = 0` in force (explicitly, or because no
+  `fill_value` / no `expected_groups` were given) a requested label that does not occur is NOT filled with the user's
+  fill by the eager path (it keeps the NumPy kernel's fill) nor by `reindex=True` map-reduce (it keeps the finalized
+  intermediate fill); `reindex=False` map-reduce and blockwise do fill it.  The property's quantifier supplies a fill
+  whenever a label may be absent; with the implicit rule of §4 that gives `min_count = 1` and `H_absent` holds – the
+  gap is an EXPLICIT `min_count=0` (or a blueprint whose mask is off) together with an absent label. -/
+
+/-- `sum`, no `min_count`, no fill, label 1 requested but absent: eager returns the NumPy fill NaN, the specification
+    demands a fill (`ValueError`) -/
+theorem H_absent_counterexample :
+    E2E.Rsum.shape? = some (.simple .sum .sum Val.zero) ∧ HAllNaN E2E.Rsum (.simple .sum .sum Val.zero)
+    ∧ HMinMax E2E.Rsum (.simple .sum .sum Val.zero) ∧ ¬ HAbsent E2E.Rsum (members 1 [0] [Val.fin 1])
+    ∧ runKnown (E2E.mkCall E2E.Rsum .npg 2 2) .eager true [1] (codeKeys [0]) [Val.fin 1] = .ok [Val.fin 1, Val.nan]
+    ∧ specResult .sum E2E.Rsum [0] [Val.fin 1] 2 = .error "ValueError" :=
+  E2E.H_absent_counterexample
+
+/-- even with a user fill 7 the eager result for the absent label is the NumPy fill, not the user's -/
+theorem H_absent_counterexample_fill :
+    runKnown (E2E.mkCall { E2E.Rsum with userFill := some (Val.fin 7) } .npg 2 2) .eager true [1] (codeKeys [0])
+        [Val.fin 1] = .ok [Val.fin 1, Val.nan]
+    ∧ specResult .sum { E2E.Rsum with userFill := some (Val.fin 7) } [0] [Val.fin 1] 2
+        = .ok [Val.fin 1, Val.fin 7] :=
+  E2E.H_absent_counterexample_fill
+
+/-- the absent label gets the intermediate fill 0 from `reindex=True` map-reduce and NaN from the eager path -/
+theorem H_absent_counterexample_mapreduce :
+    runKnown (E2E.mkCall E2E.Rsum .npg 2 2) (.mapreduce true) true [1] (codeKeys [0]) [Val.fin 1]
+        = .ok [Val.fin 1, Val.fin 0]
+    ∧ runKnown (E2E.mkCall E2E.Rsum .npg 2 2) .eager true [1] (codeKeys [0]) [Val.fin 1]
+        = .ok [Val.fin 1, Val.nan] :=
+  E2E.H_absent_counterexample_mapreduce
+
+/-! ### non-vacuity -/
+
+/-- the specification on data with a dropped element (code -1), an absent requested label (1), an all-NaN label (3):
+    `nanmean`, `min_count=1`, fill 0 – the falsy fill arrives verbatim in slots 1 and 3 -/
+example : Spec.reduce .nanmean 1 (some Val.zero) E2E.codes8 E2E.vals8 4
+    = some [Val.fin (3/2), Val.zero, Val.fin 4, Val.zero] := by decide +kernel
+
+/-- `min_count = 2`: label 2 has two valid members (kept), labels 0.. with fewer are filled -/
+example : Spec.reduce .nansum 2 (some (Val.fin (-9))) [0, 1, 1, 2, 2] [.fin 1, .fin 2, .nan, .fin 3, .fin 4] 4
+    = some [Val.fin (-9), Val.fin (-9), Val.fin 7, Val.fin (-9)] := by decide +kernel
+
+/-- no fill and an absent label: the specification refuses; `spec_refuses_iff` gives the witness -/
+example : Spec.reduce .sum 0 none [0] [Val.fin 1] 2 = none := by decide +kernel
+
+/-- `spec_dropped_elements_ignored` on `codes8` (one element coded -1): the filtered input is really shorter -/
+example : ((E2E.codes8.zip E2E.vals8).filter fun p => decide (0 ≤ p.1 ∧ p.1 < ((4 : Nat) : Int))).length = 7 := by
+  decide +kernel
+
+open E2E in
+/-- all five plan theorems have satisfiable hypotheses; here `reindex=False` with the falsy fill 0 on `codes8` -/
+example : runKnown (mkCall { Rnanmean with userFill := some Val.zero } .npg 4 2) (.mapreduce false) true [2, 1, 3, 2]
+      (codeKeys codes8) vals8
+    = .ok [Val.fin (3/2), Val.zero, Val.fin 4, Val.zero] :=
+  (mapreduce_sparse_returns_spec { Rnanmean with userFill := some Val.zero } (.mean true)
+    (mkCall { Rnanmean with userFill := some Val.zero } .npg 4 2) 4 true [2, 1, 3, 2] codes8 vals8
+    rfl rfl rfl rfl (by decide +kernel) codes8_ok rfl (by decide +kernel) (by decide +kernel) rfl
+    (by decide +kernel)).trans (by decide +kernel)
+
 end Flox.C05
